@@ -8,7 +8,8 @@ import json, os, re, shutil, subprocess, sys
 
 prop, which = sys.argv[1], sys.argv[2]
 src = sys.argv[3] if len(sys.argv) > 3 else "/tmp/seed/%s/seed_out/%s" % (prop, which)
-WT = "/tmp/seedverify_%s%s" % (prop, which)
+dest_name = sys.argv[4] if len(sys.argv) > 4 else "%s%s" % (prop, which.lower())
+WT = "/tmp/seedverify_%s" % (sys.argv[4] if len(sys.argv) > 4 else prop + which)
 env = dict(os.environ, CARGO_NET_OFFLINE="true", CARGO_TARGET_DIR=WT + "/target")
 
 
@@ -48,7 +49,7 @@ try:
     print("\n".join(log))
     print("VERDICT:", "CONFIRMED" if verdict else "REJECTED", dict(ok_without=ok_without, ok_demo_fails=ok_demo_fails, ok_baseline=ok_baseline))
     if verdict:
-        dst = "/verif/seeded/%s%s" % (prop, which.lower())
+        dst = "/verif/seeded/%s" % dest_name
         os.makedirs(dst, exist_ok=True)
         shutil.copy(os.path.join(src, "patch.diff"), dst + "/patch.diff")
         shutil.copy(os.path.join(src, "demo.rs"), dst + "/demo.rs")
